@@ -691,6 +691,41 @@ def FitState.inStepB (st : FitState) : Bool :=
   !st.frontier.isEmpty && st.frontier.all (fun it => it.st.isSome) &&
     decide (st.frontier.length - 1 ≤ spineR st.placed)
 
+/-- every edge of a content automaton is labelled with a node type of the schema (true of every
+    compiled schema; decidable guard of `fit_emits_wf`, Props/C11.lean) -/
+def Schema.labelsOKB (S : Schema) : Bool :=
+  (List.range S.nodes.size).all (fun w => (List.range (S.dfa w).size).all (fun q =>
+    ((S.dfa w).edgesOf q).all (fun e => decide (e.1 < S.nodes.size))))
+
+/-- does `p` hold in the given state and after every iteration of the loop of `fit`?  `none` = the
+    run raises or runs out of fuel.  (Evaluation helper for hypotheses about the whole run, not a
+    model of library code.) -/
+def fitLoopAll (S : Schema) (p : FitState → Bool) : Nat → FitState → Option Bool
+  | 0, st => if st.unplaced.size == 0 then some (p st) else none
+  | fuel + 1, st =>
+    if st.unplaced.size == 0 then some (p st)
+    else match fitStep S st with
+      | .ok st' => (fitLoopAll S p fuel st').map (fun b => b && p st)
+      | .error _ => none
+
+/-- **the unplaced slice stays well-formed over the run** (`Slice.wf` in the state `Fitter.__init__`
+    builds and after every iteration; vacuously true when the Fitter is not reached).  `place_nodes`
+    keeps `open_start` when it stops short of the end of a fragment above the open level (also
+    upstream), after which `open_start` can exceed the first-child chain: on such runs this is false.
+    Decidable hypothesis of `fit_emits_wf` (Props/C11.lean), evaluated by the driver (op `fitEmit`). -/
+def unplacedWfRun (S : Schema) (doc : Node) (f t : Nat) (sl : Slice) : Bool :=
+  if f == t && sl.size == 0 then true
+  else
+    match doc.resolve f, doc.resolve t with
+    | some rf, some rt =>
+      match fitsTriviallyR S rf rt sl with
+      | some false =>
+        match fitInit S rf sl with
+        | .ok st0 => fitLoopAll S (fun st => st.unplaced.wf) (fitFuel S sl) st0 == some true
+        | .error _ => true
+      | _ => true
+    | _, _ => true
+
 /-! ### decidable hypotheses of the deletion-totality theorem (Props/C11.lean `delete_total`) -/
 
 /-- every generatable type that labels an edge of a content automaton — every type `fill_before` can
